@@ -191,10 +191,10 @@ class State(Sized):
         # Concatenate the rest of the variables
         for var in state_vars:
             value = values[var]
-            # Flags given as 0/1 (a column of a release file) stay boolean,
-            # the tracker uses them as masks
-            if np.dtype(self.dtypes[var]) == np.dtype(bool):
-                value = np.asarray(value, dtype=bool)
+            # Flags given as 0/1 and times given as text (columns of a release file)
+            # keep the declared type, the tracker uses the flags as masks
+            if np.dtype(self.dtypes[var]).kind in "bM":
+                value = np.asarray(value, dtype=self.dtypes[var])
             self.variables[var] = np.concatenate((self.variables[var], value))
 
         logger.debug("Total number of particles = %d", len(self))
